@@ -115,4 +115,11 @@ CHECKS["C18"] = {
   "design_ref": "DESIGN.md §5 C18",
   "note": "Real executions are sequential apart from the one adversarial schedule; gen_server / gen_event call-reply not bound yet. Fake EPMD via the guarded port override.",
 }
+CHECKS["C07"] = {
+  "level": "model_checking",
+  "technique": "TLA+ spec of the send path with per-connection lock and partial writes (Connection.tla) model-checked by TLC incl. the lock-free variant; every send operation's frame, captured by a scripted peer, is read by the TLA+ implementation of the protocol (Parse_Wire over Etf/DistHeader) and compared with the control tuple from Control.tla; concurrent senders with a task parked between partial writes",
+  "text": "TLC checks FramesIntact, OrderPerTask and NoWriteBeforeConnected over all interleavings of the partial writes of 2-3 tasks and finds the interleaved-bytes counterexample without the lock. 120 operations x both framing modes are issued on a real Connection; exactly one frame must arrive, readable by the spec's reader as the protocol's control tuple plus payload. Through one Node, 2-4 tasks send concurrently, once with the first sender parked after the length prefix / after the control term (the counterexample's schedule): the second sender must not reach the wire, every frame must parse, be complete, unique and in per-caller order.",
+  "design_ref": "DESIGN.md §5 C07",
+  "note": "Header mode only at Connection level (the node never negotiates it). Hook-point granularity for the forced schedules; free-running concurrency otherwise.",
+}
 NOT_APPLICABLE = {}
